@@ -150,7 +150,10 @@ impl<R: BufRead + Seek + Position> ReadValue for ValueReader<R> {
     }
 
     fn skip(&mut self, len: usize) -> Result<(), ProtobufError> {
-        self.inner.seek_relative(len as i64)?;
+        // A length that does not fit in an `i64` cannot be a valid forwards
+        // seek offset, and is certainly past the end of the input.
+        let offset = i64::try_from(len).map_err(|_| ProtobufError::new(ErrorKind::Eof))?;
+        self.inner.seek_relative(offset)?;
         Ok(())
     }
 
@@ -188,6 +191,14 @@ impl<R: Read + Seek> ReadPos<R> {
     pub fn into_inner(self) -> R {
         self.inner
     }
+
+    /// Return the position `offset` bytes from the current position, or an
+    /// error if it is negative or overflows.
+    fn offset_pos(&self, offset: i64) -> std::io::Result<u64> {
+        self.pos
+            .checked_add_signed(offset)
+            .ok_or_else(|| std::io::Error::from(std::io::ErrorKind::InvalidInput))
+    }
 }
 
 impl<R: Read> Read for ReadPos<R> {
@@ -202,8 +213,9 @@ impl<R: Read + Seek> Seek for ReadPos<R> {
     fn seek(&mut self, seek: SeekFrom) -> std::io::Result<u64> {
         match seek {
             SeekFrom::Current(offset) => {
+                let new_pos = self.offset_pos(offset)?;
                 self.inner.seek_relative(offset)?;
-                self.pos = (self.pos as i64 + offset) as u64;
+                self.pos = new_pos;
                 Ok(self.pos)
             }
             SeekFrom::Start(_) | SeekFrom::End(_) => {
@@ -218,8 +230,9 @@ impl<R: Read + Seek> Seek for ReadPos<R> {
     // to `seek_relative` on the underlying reader. This is much more efficient
     // for `BufReader`.
     fn seek_relative(&mut self, offset: i64) -> std::io::Result<()> {
+        let new_pos = self.offset_pos(offset)?;
         self.inner.seek_relative(offset)?;
-        self.pos = (self.pos as i64 + offset) as u64;
+        self.pos = new_pos;
         Ok(())
     }
 }
@@ -254,7 +267,7 @@ impl<'a, R: ReadValue> LimitReader<'a, R> {
     /// Create a reader which reads up to `len` bytes of `inner`.
     pub fn new(inner: &'a mut R, len: u64) -> Self {
         Self {
-            end: inner.position() + len,
+            end: inner.position().saturating_add(len),
             inner,
         }
     }
@@ -262,16 +275,15 @@ impl<'a, R: ReadValue> LimitReader<'a, R> {
     /// Create a sub-reader which reads up to `len` bytes of this reader.
     pub fn sub_limit(&mut self, len: u64) -> LimitReader<'_, R> {
         LimitReader {
-            end: self.inner.position() + len,
+            end: self.inner.position().saturating_add(len),
             inner: self.inner,
         }
     }
 
     fn check_has_bytes(&self, len: usize) -> Result<(), ProtobufError> {
-        if self.position() + (len as u64) <= self.end {
-            Ok(())
-        } else {
-            Err(ProtobufError::new(ErrorKind::Eof))
+        match self.position().checked_add(len as u64) {
+            Some(end) if end <= self.end => Ok(()),
+            _ => Err(ProtobufError::new(ErrorKind::Eof)),
         }
     }
 }
